@@ -9,6 +9,6 @@ CONSTANTS
   MaxBatch = 1
   Hist = FALSE
   SplitReg = TRUE
-INVARIANTS TypeOK Partition NextRequest
+INVARIANTS TypeOK Partition
 PROPERTIES P_C20 P_LiveReleased P_LiveRequest P_LiveOutside P_LivePark
 CHECK_DEADLOCK FALSE
